@@ -69,6 +69,7 @@ pub fn dump_all(tcx: TyCtxt<'_>) -> J {
                     variants.push(
                         J::obj()
                             .s("name", v.name.to_string())
+                            .s("discr", format!("{:?}", v.discr))
                             .f("fields", J::Arr(fields))
                             .done(),
                     );
